@@ -81,6 +81,18 @@ func CatalogueForms() []Form {
 		c("string_less", "rb = s < \"b\""), c("string_ge", "rb = s >= \"ab\""),
 		c("signed_shift", "r = uint64((int(x) - int(y)) >> 1)"), c("signed_rem", "r = uint64((int(x) - int(y)) % 3)"),
 		c("signed_len_cmp", "rb = len(xs) < 8"), c("signed_len_sub_cmp", "rb = len(xs)-8 < 0"),
+		// conversions to int of unsigned operands (not known to be non-negative as int: x >= 2^63)
+		c("signed_conv_cmp", "rb = int(x) < int(y)"), c("signed_conv_len_cmp", "rb = len(xs) < int(x)"),
+		c("signed_conv_quot", "r = uint64(int(x) / 2)"), c("signed_conv_u32_cmp", "rb = int(w) < int(w+1)"),
+		// op-assignment on an element whose index is an expression, next to variables named like plausible temporaries
+		c("opassign_elem_idx", "idx := uint64(4)\nxs[x%2+1] += idx\nr = xs[x%2+1] + idx"),
+		c("opassign_elem_tmp", "tmp := uint64(4)\ni := x % 2\nxs[i+1] += tmp\nr = xs[i+1] + tmp + i"),
+		c("opassign_elem_index", "index := uint64(4)\nxs[(x+1)%3] -= index\nr = xs[(x+1)%3] + index"),
+		c("opassign_field_of_elem", "k := uint64(3)\nts[x%2].b += k\nr = ts[x%2].b + k"),
+		// []byte(...) of things that are not strings
+		cd("bytes_of_named_slice", "type NBlk []byte\n", "bq := make([]byte, 2)\nnb := NBlk(bq)\nraw := []byte(nb)\nraw[0] = 9\nr = uint64(nb[0]) + uint64(len(raw))"),
+		c("bytes_of_nil", "raw := []byte(nil)\nr = uint64(len(raw))"),
+		c("bytes_of_byte_slice", "bq := make([]byte, 2)\nraw := []byte(bq)\nraw[1] = 7\nr = uint64(bq[1])"),
 		c("signed_quotient", "r = uint64((int(x) - int(y)) / 2)"),
 		c("range_map_delete_rounds", "m[1] = 1\nm[2] = 2\nm[3] = 3\nvar cnt uint64\nfor range m {\n\tfor k := range m {\n\t\tdelete(m, k)\n\t}\n\tcnt = cnt + 1\n}\nr = cnt"),
 		c("range_map_delete", "for k := range m {\n\tdelete(m, k)\n}\nr = uint64(len(m))"),
